@@ -89,6 +89,8 @@ IRR = {
     "smt_cap60": {"method": 1, "kw": {"SMT": [80] * 4, "MaxIrrSeason": 60}},
     "int3": {"method": 2, "kw": {"IrrInterval": 3}},
     "const40e90": {"method": 5, "kw": {"depth": 40, "AppEff": 90}},
+    "const15max10": {"method": 5, "kw": {"depth": 15, "MaxIrr": 10}},          # the configured depth exceeds the daily maximum
+    "smt_max6_season100": {"method": 1, "kw": {"SMT": [90] * 4, "MaxIrr": 6, "MaxIrrSeason": 100}},
     "sched_e90": {"method": 3, "kw": {"AppEff": 90}, "schedule": "inseason"},
     "int7e40": {"method": 2, "kw": {"IrrInterval": 7, "AppEff": 40}},
     "sched": {"method": 3, "kw": {}, "schedule": "inseason"},
@@ -136,6 +138,7 @@ GW = {
     "rising_v": {"method": "Variable", "series": [[0, 2.4], [30, 0.5], [9999, 0.5]]},
     "falling_v": {"method": "Variable", "series": [[0, 0.4], [25, 2.6], [9999, 3.0]]},
     "falling_c": {"method": "Constant", "series": [[0, 0.5], [15, 1.4], [28, 2.8]]},
+    "rising_c_late": {"method": "Constant", "series": [[0, 2.6], [60, 1.0], [80, 0.7]]},   # held observations rising above well-developed roots
     "rising_above_zmin_v": {"method": "Variable", "series": [[0, 1.6], [14, 0.18], [22, 0.18], [40, 1.6], [9999, 1.6]]},   # shallower than every crop's minimum rooting depth for a week
 }
 
